@@ -104,6 +104,20 @@ def targets():
         mk('pow_int_m1', Q, lambda A, v: A.Quaternion(v.vec(*Q)) ** -1, 'Quaternion(q) ** -1 with the exponent a Python int'),
         mk('pow_int_2', Q, lambda A, v: A.Quaternion(v.vec(*Q)) ** 2, 'Quaternion(q) ** 2 with the exponent a Python int'),
     ]
+    # unit flags: the non-default flag on its own units (twins of the default-flag targets)
+    ts += [
+        mk('rotation_deg_y', ['t0'], lambda A, v: D(A).rotation('y', v.t0, degrees=True), "rotation('y', t0, degrees=True)"),
+        mk('rot_seq_deg_zyx', T3, lambda A, v: D(A).rot_seq('zyx', ang(v, 3), degrees=True), "rot_seq('zyx', angles, degrees=True)"),
+        mk('rot_seq_deg_xz', T3[:2], lambda A, v: D(A).rot_seq('xz', ang(v, 2), degrees=True), "rot_seq('xz', angles, degrees=True)"),
+        mk('rot_seq_xz', T3[:2], lambda A, v: D(A).rot_seq('xz', ang(v, 2)), "rot_seq('xz', angles)"),
+        mk('DCM_xyz_deg', T3, lambda A, v: A.DCM(x=v.t0, y=v.t1, z=v.t2, degrees=True), 'DCM(x=t0, y=t1, z=t2, degrees=True)'),
+        mk('rpy2q', RPY, lambda A, v: O(A).rpy2q(v.vec(*RPY)), 'rpy2q(a)'),
+        mk('rpy2q_deg', RPY, lambda A, v: O(A).rpy2q(v.vec(*RPY), in_deg=True), 'rpy2q(a, in_deg=True)'),
+        mk('q2rpy', Q, lambda A, v: O(A).q2rpy(v.vec(*Q)), 'q2rpy(q)'),
+        mk('q2rpy_deg', Q, lambda A, v: O(A).q2rpy(v.vec(*Q), in_deg=True), 'q2rpy(q, in_deg=True)'),
+        mk('axang2quat', AX + ['th'], lambda A, v: O(A).axang2quat(v.vec(*AX), v.th), 'axang2quat(axis, th)'),
+        mk('axang2quat_deg', AX + ['th'], lambda A, v: O(A).axang2quat(v.vec(*AX), v.th, rad=False), 'axang2quat(axis, th, rad=False)'),
+    ]
     for ax in 'xyz':
         ts.append(mk(f'rotation_{ax}', ['t0'], (lambda A, v, ax=ax: D(A).rotation(ax, v.t0)), f"rotation('{ax}', t0)"))
     for s in _seqs():
@@ -112,7 +126,7 @@ def targets():
 
 
 STAGES = [['C10_defs.v', 'C10_expdefs.v'],
-          ['C10_explog.v', 'C10_state.v', 'C10_seq.v', 'C10_pow.v', 'C10_ctor_rpy.v', 'C10_ctor_euler_zyx.v', 'C10_ctor_xyz.v', 'C10_axang.v',
+          ['C10_explog.v', 'C10_state.v', 'C10_seq.v', 'C10_units.v', 'C10_pow.v', 'C10_ctor_rpy.v', 'C10_ctor_euler_zyx.v', 'C10_ctor_xyz.v', 'C10_axang.v',
            'C10_euler.v', 'C10_mlog.v'],
           [('C10_refuted.v', {'finding': 'DCM(rpy)/angle-order-differs-from-Quaternion(rpy)'})],
           ['C10.v']]
@@ -141,6 +155,15 @@ def _impl():
         'explog': lambda q: ahrs.Quaternion(ahrs.Quaternion(arr(q)).logarithm, versor=False).exponential,
         'explog_syn': lambda q: ahrs.Quaternion(ahrs.Quaternion(arr(q)).log, versor=False).exp,
         'pow': lambda q, a: ahrs.Quaternion(arr(q)) ** float(a),
+        'rotation_deg': lambda ax, t: D.rotation(ax, float(t), degrees=True),
+        'rot_seq_deg': lambda s, t: D.rot_seq(s, fl(t), degrees=True),
+        'DCM_xyz_deg': lambda t: np.asarray(ahrs.DCM(x=float(t[0]), y=float(t[1]), z=float(t[2]), degrees=True)),
+        'rpy2q': lambda a: O.rpy2q(arr(a)), 'rpy2q_deg': lambda a: O.rpy2q(arr(a), in_deg=True),
+        'cardan2q': lambda a: O.cardan2q(arr(a)), 'cardan2q_deg': lambda a: O.cardan2q(arr(a), in_deg=True),
+        'q2rpy': lambda q: O.q2rpy(arr(q)), 'q2rpy_deg': lambda q: O.q2rpy(arr(q), in_deg=True),
+        'q2cardan': lambda q: O.q2cardan(arr(q)), 'q2cardan_deg': lambda q: O.q2cardan(arr(q), in_deg=True),
+        'axang2quat': lambda ax, th: O.axang2quat(arr(ax), float(th)),
+        'axang2quat_deg': lambda ax, th: O.axang2quat(arr(ax), float(th), rad=False),
         'state': lambda q, m, a=None: (lambda o: [(o ** float(a)) if m == 'pow' else (lambda r: r() if callable(r) else r)(getattr(o, m)),
                                                   np.asarray(o), o.A])(ahrs.Quaternion(arr(q), versor=False)),
         'pow_int': lambda q, k: ahrs.Quaternion(arr(q)) ** int(k),
@@ -243,6 +266,24 @@ def correspondence(ctx):
     ctx.correspond('C10_state_pow', pc, lambda c: I['state']([c[k] for k in Q], 'pow', c['a']), tol_ulp=4096, abs_tol=1e-13)
     ctx.correspond('C10_pow_int_m1', qc, lambda c: I['pow_int']([c[k] for k in Q], -1), tol_ulp=4096, abs_tol=1e-13)
     ctx.correspond('C10_pow_int_2', qc, lambda c: I['pow_int']([c[k] for k in Q], 2), tol_ulp=4096, abs_tol=1e-13)
+    # unit-flag twins (inputs of the *_deg targets are degrees)
+    deg = lambda a: [float(np.degrees(x)) for x in a]
+    ctx.correspond('C10_rpy2q', [cm.d(RPY, a) for a in tri], lambda c: I['rpy2q']([c[k] for k in RPY]), tol_ulp=256)
+    ctx.correspond('C10_rpy2q_deg', [cm.d(RPY, deg(a)) for a in tri], lambda c: I['rpy2q_deg']([c[k] for k in RPY]), tol_ulp=256)
+    unitq = [cm.d(Q, q / np.linalg.norm(q)) for q in qs]
+    ctx.correspond('C10_q2rpy', unitq, lambda c: I['q2rpy']([c[k] for k in Q]), tol_ulp=256)
+    ctx.correspond('C10_q2rpy_deg', unitq, lambda c: I['q2rpy_deg']([c[k] for k in Q]), tol_ulp=256)
+    ctx.correspond('C10_axang2quat', aa, lambda c: I['axang2quat']([c[k] for k in AX], c['th']), tol_ulp=256)
+    ctx.correspond('C10_axang2quat_deg', [{**c, 'th': float(np.degrees(c['th']))} for c in aa],
+                   lambda c: I['axang2quat_deg']([c[k] for k in AX], c['th']), tol_ulp=256)
+    md = ctx.n(15, 80)
+    t3d = [cm.d(T3, deg(_seq_angles(ctx.rng, 3, i))) for i in range(md)] + [cm.d(T3, x) for x in ([90.0, 180.0, -90.0], [360.0, 45.0, 720.0], [1e-5, 0.0, 30.0])]
+    ctx.correspond('C10_rot_seq_deg_zyx', t3d, lambda c: I['rot_seq_deg']('zyx', [c[k] for k in T3]), tol_ulp=256)
+    ctx.correspond('C10_DCM_xyz_deg', t3d, lambda c: I['DCM_xyz_deg']([c[k] for k in T3]), tol_ulp=256)
+    ctx.correspond('C10_rot_seq_deg_xz', [{k: c[k] for k in T3[:2]} for c in t3d], lambda c: I['rot_seq_deg']('xz', [c[k] for k in T3[:2]]), tol_ulp=256)
+    ctx.correspond('C10_rot_seq_xz', [cm.d(T3[:2], _seq_angles(ctx.rng, 2, i)) for i in range(md)], lambda c: I['rot_seq']('xz', [c[k] for k in T3[:2]]), tol_ulp=256)
+    ctx.correspond('C10_rotation_deg_y', [{'t0': a} for a in [0.0, 90.0, -90.0, 180.0, 360.0, 720.0, 1e-5, 33.0, -123.4, 400.0]],
+                   lambda c: I['rotation_deg']('y', c['t0']), tol_ulp=256)
     m = ctx.n(25, 120)
     t3 = [cm.d(T3, _seq_angles(ctx.rng, 3, i)) for i in range(m)]
     ctx.correspond('C10_DCM_euler_zyx', t3, lambda c: I['DCM_euler']('zyx', [c[k] for k in T3]), tol_ulp=256)
@@ -543,7 +584,50 @@ def o_convention(inp):
     return None
 
 
-ORACLES = {'rpy': o_rpy, 'axq': o_axq, 'axR': o_axR, 'explog': o_explog, 'pow': o_pow, 'seq': o_seq, 'mlog': o_mlog,
+def o_units(inp):
+    """every unit option of the C10 conversions: the call with the non-default flag on angles in degrees equals the default call on
+    the same angles in radians (outputs in degrees equal the default outputs converted)"""
+    I = _impl()
+    e = inp['entry']
+    R2D = 180.0 / math.pi
+    tag = lambda what: {'tag': f'{e}/degrees-path-differs-from-radians-path', 'observed': what[0], 'expected': what[1]}
+    if e in ('rot_seq', 'DCM_xyz', 'rotation'):
+        t = [float(x) for x in inp['angles']]
+        td = [x * R2D for x in t]
+        s = inp.get('seq', 'xyz')
+        a, b = {'rot_seq': (lambda: I['rot_seq_deg'](s, td), lambda: I['rot_seq'](s, t)),
+                'DCM_xyz': (lambda: I['DCM_xyz_deg'](td), lambda: I['DCM_xyz'](t)),
+                'rotation': (lambda: I['rotation_deg'](s, td[0]), lambda: I['rotation'](s, t[0]))}[e]
+        A, B = np.asarray(a(), float), np.asarray(b(), float)
+        spec = np.eye(3)
+        for ax, x in zip(s, t):
+            spec = spec @ _elem(ax, x)
+        if A.shape != (3, 3) or cm.bad(A) or cm.maxabs(A, B) > 1e-12 or cm.maxabs(A, spec) > 1e-12:
+            return tag((A, B))
+        return None
+    if e in ('rpy2q', 'cardan2q'):
+        a = np.array(inp['angles'], float)
+        A, B = np.asarray(I[e + '_deg']((a * R2D).copy()), float), np.asarray(I[e](a.copy()), float)
+        if A.shape != (4,) or cm.bad(A) or cm.maxabs(A, B) > 1e-12:
+            return tag((A, B))
+        return None
+    if e in ('q2rpy', 'q2cardan'):
+        q = np.array(inp['q'], float)
+        q = q / np.linalg.norm(q)
+        A, B = np.asarray(I[e + '_deg'](q.copy()), float), np.asarray(I[e](q.copy()), float) * R2D
+        if A.shape != (3,) or (cm.bad(A) != cm.bad(B)) or (not cm.bad(A) and cm.maxabs(A, B) > 1e-10):
+            return tag((A, B))
+        return None
+    if e == 'axang2quat':
+        ax, th = np.array(inp['axis'], float), float(inp['angle'])
+        A, B = np.asarray(I['axang2quat_deg'](ax.copy(), th * R2D), float), np.asarray(I['axang2quat'](ax.copy(), th), float)
+        if A.shape != (4,) or cm.bad(A) or cm.maxabs(A, B) > 1e-12 or cm.maxabs(A, cm.axang_q(ax, th)) > 1e-12:
+            return tag((A, B))
+        return None
+    return {'tag': f'{e}/unknown-entry'}
+
+
+ORACLES = {'units': o_units, 'rpy': o_rpy, 'axq': o_axq, 'axR': o_axR, 'explog': o_explog, 'pow': o_pow, 'seq': o_seq, 'mlog': o_mlog,
            'convention': o_convention, 'qax': o_qax, 'logexp': o_logexp, 'state': o_state}
 
 
@@ -628,6 +712,26 @@ def search(ctx, scale):
             for e in entries:
                 inp = {'entry': e, 'seq': s, 'angles': t}
                 ctx.check('seq', inp, _call(o_seq, inp, e), nontrivial_key=(e, s, tuple(np.round(t, 9))) if any(t) else None)
+    # unit flags: every sequence through rot_seq(degrees=True); rotation, DCM(x=,y=,z=,degrees=True), rpy2q/cardan2q, q2rpy/q2cardan, axang2quat
+    for j, s_ in enumerate(ALL_SEQS):
+        for i in range(2 + scale):
+            t = _seq_angles(rng, len(s_), [4, 99, 99, 1, 5][i % 5] if i < 2 else 99)
+            inp = {'entry': 'rot_seq', 'seq': s_, 'angles': t}
+            ctx.check('units', inp, _call(o_units, inp, 'rot_seq(degrees=True)'), nontrivial_key=('rot_seq', s_, tuple(np.round(t, 9))))
+            if len(s_) == 1:
+                inp = {'entry': 'rotation', 'seq': s_, 'angles': t}
+                ctx.check('units', inp, _call(o_units, inp, 'rotation(degrees=True)'), nontrivial_key=('rotation', s_, tuple(np.round(t, 9))))
+    for i, a in enumerate(_angle_triples(rng, 12 * scale)):
+        for e in ('rpy2q', 'cardan2q', 'DCM_xyz'):
+            inp = {'entry': e, 'angles': a}
+            ctx.check('units', inp, _call(o_units, inp, e), nontrivial_key=(e, tuple(np.round(a, 9))) if any(a) else None)
+    for i, (region, q) in enumerate(cm.quats(rng, 12 * scale)):
+        for e in ('q2rpy', 'q2cardan'):
+            inp = {'entry': e, 'q': q.tolist()}
+            ctx.check('units', inp, _call(o_units, inp, e), nontrivial_key=(e, tuple(np.round(q, 9))))
+    for i in range(12 * scale):
+        inp = {'entry': 'axang2quat', 'axis': axs[i % len(axs)], 'angle': ths[(5 * i + 3) % len(ths)]}
+        ctx.check('units', inp, _call(o_units, inp, 'axang2quat(rad=False)'), nontrivial_key=('axang2quat', i))
     for a in _angle_triples(rng, 10 * scale)[3:]:
         inp = {'angles': a}
         ctx.check('convention', inp, _call(o_convention, inp, 'DCM(rpy)'), nontrivial_key=tuple(np.round(a, 9)))
